@@ -335,6 +335,26 @@ fn corpus(a: &Args, seed: u64, limit: usize, malformed: bool) -> Vec<(String, Ve
         out.retain(|(_, b)| tokenize(b).term == "end");
         out.retain(|(n, _)| n != "s-short-int" && n != "s-begbody");
     }
+    // responses of every status class (and a request) with the shape printers really send: operation group with
+    // charset / language / status-message, then an unsupported-attributes or job group
+    for code in [0x0000u16, 0x0001, 0x0002, 0x00ff, 0x0400, 0x040a, 0x040b, 0x0500, 0x0507, 0x05ff, 0x000b, 0x0002 | 0x4000] {
+        let mut b = vec![1u8, 1, (code >> 8) as u8, code as u8, 0, 0, 0, 9, 1];
+        let val = |b: &mut Vec<u8>, tag: u8, name: &[u8], body: &[u8]| {
+            b.push(tag);
+            b.extend_from_slice(&(name.len() as u16).to_be_bytes());
+            b.extend_from_slice(name);
+            b.extend_from_slice(&(body.len() as u16).to_be_bytes());
+            b.extend_from_slice(body);
+        };
+        val(&mut b, 0x47, b"attributes-charset", b"utf-8");
+        val(&mut b, 0x48, b"attributes-natural-language", b"en");
+        val(&mut b, 0x41, b"status-message", b"x");
+        b.push(if code >= 0x0400 && code < 0x0600 { 5 } else { 2 });
+        val(&mut b, 0x10, b"sides", b"");
+        val(&mut b, 0x21, b"job-id", &[0, 0, 0, 7]);
+        b.push(3);
+        out.push((format!("resp-{:04x}", code), b));
+    }
     // long names / values (longer than any plausible internal buffer), delivered in fragments
     {
         let h = [2u8, 0, 0, 0, 0, 0, 0, 5];
@@ -366,7 +386,7 @@ fn corpus(a: &Args, seed: u64, limit: usize, malformed: bool) -> Vec<(String, Ve
             let mut names = Names::new();
             let mut mnames = Names::new();
             let toks = conc_toks(&case["toks"], &mut names, &mut mnames, &mut r, &dm);
-            let bytes = encode(0x0101, r.next() as u16, r.next() as u32, &toks);
+            let bytes = encode(0x0101, if ci % 2 == 0 { HDR_CODES[(ci / 2) % HDR_CODES.len()] } else { hdr_code(&mut r) }, r.next() as u32, &toks);
             if bytes.len() > 400 {
                 continue;
             }
